@@ -31,7 +31,7 @@ def _raw_of(g):
     return cells['f'].cell_contents
 
 
-class Fault(Exception):
+class Fault(ArithmeticError):
     pass
 
 
@@ -50,7 +50,7 @@ def const_memo(p):
         heap[(id(f), 'memo_prec')] = (f, -1)
         heap[(id(f), 'memo_val')] = (f, None)
     else:
-        Q = ob.int('Q', 0, QMAX)
+        Q = ob.int('Q', 11, QMAX)        # reachable cache labels: int(prec*1.05+10) >= 11
         heap[(id(f), 'memo_prec')] = (f, Q)
         heap[(id(f), 'memo_val')] = (f, _F(c, Q))
 
@@ -100,18 +100,21 @@ def const_memo_concrete(p, m):
         ref = {q: g(q) for q in (P, 30, 200)}        # fresh values
         f.memo_prec, f.memo_val = -1, None
         if p['state'] != 'empty':
-            g(max(1, m.get('Q', 20) - 12))
+            fp = max(1, int((m.get('Q', 20) - 10) / 1.05))
+            while fp > 1 and int(fp * 1.05 + 10) > m.get('Q', 20):
+                fp -= 1
+            g(fp)
         if fault:
             import mpmath.libmp.libelefun as LE
             orig_code = f.__code__
 
             def boom(*a, **k):
-                raise Fault('injected')
+                raise ArithmeticError('injected fault in the series routine')
             f.__code__ = boom.__code__
             try:
                 try:
                     g(P)
-                except Fault:
+                except ArithmeticError:
                     pass
             finally:
                 f.__code__ = orig_code
